@@ -27,6 +27,8 @@ type Config struct {
 	// EmitAt >= 0: do not execute anything; regenerate the stream of worlds and write number EmitAt to EmitOut.
 	EmitAt  int64
 	EmitOut string
+	// StopAt > 0: execute the stream up to and including world number StopAt-1, then stop (history replay).
+	StopAt int64
 }
 
 // library: what worlds are drawn from.
@@ -368,6 +370,10 @@ func (rn *runner) gate(c *Case) bool {
 		}
 		return false
 	}
+	if rn.cfg.StopAt > 0 && seq >= rn.cfg.StopAt {
+		rn.stop = true
+		return false
+	}
 	if rn.journal == nil && rn.cfg.Journal != "" {
 		rn.journal, _ = os.Create(rn.cfg.Journal)
 	}
@@ -413,7 +419,7 @@ func (rn *runner) remember(c *Case) {
 }
 
 func (rn *runner) expired() bool {
-	if rn.cfg.EmitOut != "" {
+	if rn.cfg.EmitOut != "" || rn.cfg.StopAt > 0 {
 		return rn.stop
 	}
 	return rn.stop || time.Now().After(rn.cfg.Deadline)
@@ -474,7 +480,7 @@ func (rn *runner) report(c *Case, vs []verdict) {
 		rec.Prelude = append(rec.Prelude, *pc)
 	}
 	raw, _ := json.Marshal(rec)
-	rn.st.Violations = append(rn.st.Violations, evid.Violation{Property: rn.cfg.Prop, Signature: v.sig, What: v.what, Case: raw})
+	rn.st.Violations = append(rn.st.Violations, evid.Violation{Property: rn.cfg.Prop, Signature: v.sig, What: v.what, Case: raw, Seq: rn.seq - 1, W: rn.cfg.W})
 	if len(rn.st.Violations) >= rn.vcap {
 		rn.stop = true
 	}
